@@ -113,3 +113,13 @@ def planes_of(last):
 def hdr_field(hdr, name):
     m = re.search(r"(?:^| )%s=(\S+)" % name, hdr)
     return m.group(1) if m else None
+
+
+def same_trace(model_toks, impl_toks):
+    """model = implementation, up to the first op the model skipped for size (those run on the implementation only)"""
+    if model_toks is None or impl_toks is None:
+        return False
+    cut = next((j for j, t in enumerate(model_toks) if t.startswith("skipped-big")), None)
+    if cut is not None:
+        return model_toks[:cut] == impl_toks[:cut]
+    return model_toks == impl_toks
